@@ -475,7 +475,7 @@ func bindsG(vs []vinfo, inits []node) string {
 // control forms whose value is the value of an inner expression of type t
 func (g *gen) control(t typ, d int) (node, bool) {
 	nilable := nilableT(t)
-	switch g.r.Intn(27) {
+	switch g.r.Intn(29) {
 	case 0:
 		g.h("progn")
 		b := g.body(t, d, 2)
@@ -680,6 +680,8 @@ func (g *gen) control(t typ, d int) (node, bool) {
 		return g.doWhile(t, d)
 	case 25, 26:
 		return g.loopCapture(t, d)
+	case 27, 28:
+		return g.loopFormCapture(t, d)
 	case 21, 22:
 		return g.shadowCall(t, d)
 	case 23:
@@ -1583,4 +1585,88 @@ func (g *gen) loopCapture(t typ, d int) (node, bool) {
 	dummy := node{lisp("lambda", "()", "0"), "(ELambda [] [" + gInt(0) + "])"}
 	return node{lisp("let", "("+lisp(acc, e0.L)+" "+lisp(f, dummy.L)+")", joinL(all)),
 		fmt.Sprintf("(ELet [(%s, %s); (%s, %s)] %s)", q(acc), e0.G, q(f), dummy.G, listG(all))}, true
+}
+
+// the value of an integer expression made visible in the trace: (if (< e pivot) (tr a 0) (tr b 1))
+func (g *gen) observeExpr(e node, pivot int64) node {
+	g.k += 2
+	return node{fmt.Sprintf("(if (< %s %d) (tr %d 0) (tr %d 1))", e.L, pivot, g.k-1, g.k),
+		fmt.Sprintf("(EIf (EPrim PLt [%s; %s]) (ETr %d %s) (Some (ETr %d %s)))", e.G, gInt(pivot), g.k-1, gInt(0), g.k, gInt(1))}
+}
+
+// a closure made by the list form of a dolist, the count form of a dotimes or an init form of a do* - before the
+// loop variable of the same name exists - reads and writes the ENCLOSING variable (700..), not the loop variable
+// (below 100): inside the loop, in the result form and after the loop (repo_fixes/C01-12, C01-13); a closure made by
+// the init form of a later do* variable follows the stepping of an earlier one
+func (g *gen) loopFormCapture(t typ, d int) (node, bool) {
+	if g.loops >= maxLoops || d < 3 {
+		return node{}, false
+	}
+	g.h("idiom:closure-in-loop-form")
+	names := g.freshNames(2)
+	v, f := names[0], names[1]
+	z1 := int64(700 + g.r.Intn(50))
+	e1 := node{fmt.Sprint(z1), gInt(z1)}
+	mark := g.push(vinfo{name: v, t: tInt}, vinfo{name: f, t: tFun, arity: 0})
+	var lamBody node
+	if g.r.Bool() {
+		lamBody = node{lisp("setq", v, lisp("+", v, "1")), fmt.Sprintf("(ESetq [(%s, EPrim PAdd [EVar %s; %s])])", q(v), q(v), gInt(1))}
+	} else {
+		lamBody = node{v, "(EVar " + q(v) + ")"}
+	}
+	lam := g.emptyScopes(node{lisp("lambda", "()", lamBody.L), "(ELambda [] [" + lamBody.G + "])"})
+	call := func(name string) node { return node{lisp("funcall", name), fmt.Sprintf("(EFuncall (EVar %s) [])", q(name))} }
+	callF := func() node { return g.observeExpr(call(f), 100) }
+	refV := func() node { return g.observeExpr(node{v, "(EVar " + q(v) + ")"}, 100) }
+	set := node{lisp("setq", f, lam.L), fmt.Sprintf("(ESetq [(%s, %s)])", q(f), lam.G)}
+	var loop node
+	g.loops++
+	switch g.r.Intn(4) {
+	case 0: // dolist: the loop variable is nil in the result form
+		m2 := g.push(vinfo{name: v, t: tInt, ro: true})
+		body := append([]node{callF(), refV()}, g.stmts(1, d-1)...)
+		g.pop(m2)
+		res := callF()
+		loop = node{lisp("dolist", lisp(v, lisp("progn", set.L, "'(4 5)"), res.L), joinL(body)),
+			fmt.Sprintf("(EDolist %s (EProgn [%s; EQuote (DList [DInt 4; DInt 5])]) (Some %s) %s)", q(v), set.G, res.G, listG(body))}
+	case 1:
+		m2 := g.push(vinfo{name: v, t: tInt, ro: true})
+		body := append([]node{callF(), refV()}, g.stmts(1, d-1)...)
+		c1, r1 := callF(), refV() // in the result form the variable is the number of iterations
+		res := node{lisp("progn", c1.L, r1.L), fmt.Sprintf("(EProgn [%s; %s])", c1.G, r1.G)}
+		g.pop(m2)
+		loop = node{lisp("dotimes", lisp(v, lisp("progn", set.L, "2"), res.L), joinL(body)),
+			fmt.Sprintf("(EDotimes %s (EProgn [%s; %s]) (Some %s) %s)", q(v), set.G, gInt(2), res.G, listG(body))}
+	case 2: // do*: a closure made by the init form of a LATER variable sees the earlier variable, also after it is stepped
+		gname := f + "g"
+		m2 := g.push(vinfo{name: v, t: tInt, ro: true}, vinfo{name: gname, t: tFun, arity: 0})
+		callG := func() node { return g.observeExpr(call(gname), 51) }
+		rd := g.emptyScopes(node{lisp("lambda", "()", v), "(ELambda [] [EVar " + q(v) + "])"})
+		body := append([]node{callG(), refV()}, g.stmts(1, d-1)...)
+		rs := []node{callG(), refV()}
+		g.pop(m2)
+		loop = node{lisp("do*", "("+lisp(v, "50", lisp("+", v, "1"))+" "+lisp(gname, rd.L)+")", lisp(lisp(">", v, "51"), joinL(rs)), joinL(body)),
+			fmt.Sprintf("(EDo true [(%s, %s, Some (EPrim PAdd [EVar %s; %s])); (%s, %s, None)] (EPrim PGt [EVar %s; %s]) %s %s)",
+				q(v), gInt(50), q(v), gInt(1), q(gname), rd.G, q(v), gInt(51), listG(rs), listG(body))}
+	default: // do*: the closure is the value of the first variable, made before the second variable exists
+		gname := f + "g"
+		m2 := g.push(vinfo{name: gname, t: tFun, arity: 0}, vinfo{name: v, t: tInt, ro: true})
+		callG := func() node { return g.observeExpr(call(gname), 100) }
+		body := append([]node{callG(), refV()}, g.stmts(1, d-1)...)
+		rs := []node{callG(), refV()}
+		g.pop(m2)
+		keep := node{lisp("setq", f, gname), fmt.Sprintf("(ESetq [(%s, EVar %s)])", q(f), q(gname))}
+		body = append(body, keep)
+		loop = node{lisp("do*", "("+lisp(gname, lam.L)+" "+lisp(v, "50", lisp("+", v, "1"))+")", lisp(lisp(">", v, "51"), joinL(rs)), joinL(body)),
+			fmt.Sprintf("(EDo true [(%s, %s, None); (%s, %s, Some (EPrim PAdd [EVar %s; %s]))] (EPrim PGt [EVar %s; %s]) %s %s)",
+				q(gname), lam.G, q(v), gInt(50), q(v), gInt(1), q(v), gInt(51), listG(rs), listG(body))}
+	}
+	g.loops--
+	after := []node{callF(), refV()}
+	rest := g.body(t, d-1, 1)
+	g.pop(mark)
+	all := append(append([]node{loop}, after...), rest...)
+	dummy := node{lisp("lambda", "()", "0"), "(ELambda [] [" + gInt(0) + "])"}
+	return node{lisp("let", "("+lisp(v, e1.L)+" "+lisp(f, dummy.L)+")", joinL(all)),
+		fmt.Sprintf("(ELet [(%s, %s); (%s, %s)] %s)", q(v), e1.G, q(f), dummy.G, listG(all))}, true
 }
